@@ -4,6 +4,7 @@ import (
 	"fmt"
 	"reflect"
 	"runtime"
+	"sort"
 )
 
 // Channel operations of the instrumented code go through Select/Send/Recv/Close. Buffered
@@ -328,3 +329,30 @@ func Close(ch interface{}) {
 	}
 	Record(&cs.o, kChan, true, 7)
 }
+
+// MapKeysBy returns the keys of a map ordered by rank(key) (a string that is the same in every
+// execution of a scenario); see cmd/ovgen orderedMapRange.
+func MapKeysBy(m interface{}, rank func(k interface{}) string) []interface{} {
+	v := reflect.ValueOf(m)
+	if v.Kind() != reflect.Map {
+		return nil
+	}
+	ks := v.MapKeys()
+	type kp struct {
+		k interface{}
+		s string
+	}
+	tmp := make([]kp, 0, len(ks))
+	for _, k := range ks {
+		tmp = append(tmp, kp{k.Interface(), rank(k.Interface())})
+	}
+	sort.SliceStable(tmp, func(i, j int) bool { return tmp[i].s < tmp[j].s })
+	out := make([]interface{}, len(tmp))
+	for i, x := range tmp {
+		out[i] = x.k
+	}
+	return out
+}
+
+// SameKey compares two map keys.
+func SameKey(a, b interface{}) bool { return a == b }
